@@ -107,3 +107,22 @@ M("C07-M15", "C07", PROJECT, "    def module_index(self, module):", "    def dro
 M("C07-M16", "C07", PROJECT, "            for to_operand in to_modules:\n", "            for to_operand in to_modules[:1]:\n", mention="R1")
 M("C07-T1", "C07", PROJECT, "        for from_operand in from_modules:\n            for to_operand in to_modules:\n                from_module, to_module = from_operand, to_operand\n", "        from itertools import product\n\n        for from_operand, to_operand in product(from_modules, to_modules):\n            if True:\n                from_module, to_module = from_operand, to_operand\n", expect="T")
 M("C07-T2", "C07", PROJECT, "                in_link_idx = len(in_links)\n                in_links.append(from_mod_idx)\n                out_link_idx = len(out_links)\n                out_links.append(to_mod_idx)\n", "                in_link_idx = len(in_links)\n                out_link_idx = len(out_links)\n                in_links.append(from_mod_idx)\n                out_links.append(to_mod_idx)\n", expect="T")
+
+# ----------------------------------------------------------------------------------- C14
+M("C14-M1", "C14", PROJECT, "            module.parent = self\n        return module", "        return module", mention="attach_module")
+M("C14-M2", "C14", PROJECT, "                module.index = self.module_index(module)\n", "                module.index = len(self.modules)\n", mention="attach_module")
+M("C14-M3", "C14", PROJECT, "            if not loading and None in self.modules:", "            if None in self.modules:", mention="attach_module")
+M("C14-M4", "C14", PROJECT, "        elif module.parent is not None and module.parent is not self:\n            raise ModuleOwnershipError(\"Module is already attached to another project.\")\n        elif module not in self.modules:", "        elif module not in self.modules:\n            if module.parent is not None and module.parent is not self:\n                self.modules.append(None)\n                raise ModuleOwnershipError(\"Module is already attached to another project.\")", mention="attach_module")
+M("C14-M5", "C14", NOTE, "        self.module = new_mod.index + 1", "        self.module = new_mod.index", mention="Note.mod")
+M("C14-M6", "C14", PROJECT, "    def module_index(self, module):", "    def adopt(self, pattern):\n        pattern.project = self\n\n    def module_index(self, module):", mention="adopt")
+M("C14-M7", "C14", PROJECT, "        elif module not in self.modules:\n            if not loading", "        else:\n            if not loading", mention="attach_module")
+M("C14-M8", "C14", PROJECT, "        elif module.parent is not None and module.parent is not self:\n            raise ModuleOwnershipError(\"Module is already attached to another project.\")\n", "", mention="attach_module")
+M("C14-M9", "C14", PROJECT, "                module.index = self.module_index(None)\n                self.modules[module.index] = module", "                module.index = len(self.modules) - 1 - self.modules[::-1].index(None)\n                self.modules[module.index] = module", mention="attach_module")
+M("C14-M10", "C14", PROJECT, "        self.modules = []\n        self.output = self.attach_module(Output())", "        self.modules = [None]\n        self.output = self.attach_module(Output(), loading=True)", mention="Project.__init__")
+M("C14-M11", "C14", NOTE, "        return None if self.module == 0 else self.module - 1", "        return None if self.module == 0 else self.module", mention="module_index")
+M("C14-M12", "C14", PROJECT, "        if pattern and pattern.project is not None:\n            raise PatternOwnershipError(\"Pattern already attached to a project\")\n        self.patterns.append(pattern)", "        self.patterns.append(pattern)\n        if pattern and pattern.project is not None:\n            raise PatternOwnershipError(\"Pattern already attached to a project\")", mention="attach_pattern")
+M("C14-M13", "C14", PROJECT, "    def module_index(self, module):", "    def swap(self, a, b):\n        self.modules[a], self.modules[b] = self.modules[b], self.modules[a]\n\n    def module_index(self, module):", mention="swap")
+M("C14-M14", "C14", "src/python/rv/readers/module.py", "self.object = Module() if self._index > 0 else Output()", "self.object = Module()", mention="ModuleReader.process_chunks")
+M("C14-M15", "C14", MODULE, "        return self.index + 1", "        return self.index", mention="__int__")
+M("C14-T1", "C14", PROJECT, "                module.index = self.module_index(module)\n", "                module.index = len(self.modules) - 1\n", expect="T")
+M("C14-T2", "C14", PROJECT, "                self.modules.append(module)\n                module.index = self.module_index(module)\n", "                module.index = len(self.modules)\n                self.modules.append(module)\n", expect="T")
